@@ -64,6 +64,22 @@ def prepare_interpreter():
         sys.path.insert(0, '')
 
 
+_KNOWN = {}
+
+
+def known_signatures(prop):
+    """signatures of the known findings of this property (read-only; lets an
+    engine that enumerates fault points continue past an already known one)"""
+    if prop not in _KNOWN:
+        try:
+            with open(os.path.join(os.path.dirname(HERE), 'known_findings.json')) as f:
+                doc = json.load(f)
+            _KNOWN[prop] = sorted(k['signature'] for k in doc.get('findings', []) if k['property'] == prop)
+        except (OSError, ValueError):
+            _KNOWN[prop] = []
+    return _KNOWN[prop]
+
+
 def run_isolated(engine, case, prop, token, tag, timeout=None):
     """execute one case in a forked child on a private sandbox directory"""
     timeout = timeout or RUN_TIMEOUT
@@ -85,7 +101,8 @@ def run_isolated(engine, case, prop, token, tag, timeout=None):
             os.chdir(root)
             sys.dont_write_bytecode = False
             try:
-                out = engine.execute(case, prop, {'root': root, 'token': token, 'tag': tag})
+                out = engine.execute(case, prop, {'root': root, 'token': token, 'tag': tag,
+                                                  'known': known_signatures(prop)})
             except BaseException:
                 out = {'harness_error': traceback.format_exc()[-3000:]}
             data = json.dumps(out).encode()
@@ -160,7 +177,7 @@ def explore(job):
         out = run_isolated(engine, case, prop, token, tag)
         rec = {'run': run, 'digest': digest_of(case, out)}
         for k in ('steps', 'shape', 'nontrivial', 'probes', 'faults', 'sim_s',
-                  'harness_error', 'harness_timeout', 'real_events'):
+                  'harness_error', 'harness_timeout', 'real_events', 'known_hits'):
             if k in out:
                 rec[k] = out[k]
         viol = out.get('viol')
